@@ -105,6 +105,7 @@ def lo4 : FieldDef := {
 def hi4 (lo : Nat) : FieldDef := {
   name := "hi", ranges := [⟨lo, 4⟩], unsignedFieldType := none, array := none, fieldTypeSize := 4,
   getter := true, setter := true, fromDataType := some 4, useRegularInt := false, primitiveType := .u8, custom := none, docs := 0 }
+set_option maxRecDepth 8192 in
 example : makeBuilder (Base.new 8) false [lo4, hi4 4] ≠ .none := by decide
 example : makeBuilder (Base.new 8) false [lo4, hi4 3] = .none := by decide
 
